@@ -62,7 +62,7 @@ structure World (N : Type) where
   next : Nat
   colls : List (C N)
 
-inductive Err | typeError | keyError | indexError | badTarget
+inductive Err | typeError | keyError | indexError | valueError | badTarget
 deriving DecidableEq, Repr
 
 inductive Out (N : Type) | unit | obj (o : Obj N) | coll (j : Nat)
@@ -73,14 +73,20 @@ inductive Op (N : Type)
   | addObj (j : Nat) (o : Obj N)            -- `c.add(o)`, `c += o`
   | addColl (j k : Nat)                      -- `c_j.add(c_k)`, `c_j += c_k`
   | addSeq (j : Nat) (os : List (Obj N))     -- `c.add([o1, o2, ...])`
-  | pop (j : Nat) (i : Option Int)           -- `c.pop()`, `c.pop(i)`
+  | pop (j : Nat) (i : Option Int)           -- `c.pop()`, `c.pop(i)` (`int`, `bool`, numpy integer)
   | popName (j : Nat) (n : N)                -- `c.pop('name')`
+  | popBad (j : Nat)                         -- `c.pop(1.5)`: neither `str` nor an integer index
   | plusObj (j : Nat) (o : Obj N)            -- `c + o`      (new collection appended to the world)
   | plusColl (j k : Nat)                     -- `c_j + c_k`
   | plusSeq (j : Nat) (os : List (Obj N))    -- `c + [o1, ...]`
 
+/-- the class hierarchy of the stored objects: `sub a b` = `issubclass(a, b)` (`isinstance(o, b)` =
+`sub o.ty b`).  Theorems assume nothing about it. -/
+class TyRel where
+  sub : Nat → Nat → Bool
+
 section named
-variable {N : Type} [DecidableEq N]
+variable {N : Type} [DecidableEq N] [TyRel]
 
 /-- `[(o.name, start+idx) for (idx, o) in enumerate(objs)]` -/
 def namePairs : Nat → List (Obj N) → List (N × Nat)
@@ -99,13 +105,15 @@ inductive Act (N : Type)
 
 /-- what `ObjectCollection.add` accepts: a single instance of the collection's type -/
 def checkObj (ty : Nat) (o : Obj N) : Except Err (List (Obj N)) :=
-  if o.ty = ty then .ok [o] else .error .typeError
+  if TyRel.sub o.ty ty then .ok [o] else .error .typeError
 
 /-- `add(sequence)`: the sequence is first wrapped by `ObjectCollection(seq)`, whose object type is
-the type of the first element (an empty list gives the type `list`, which is never accepted). -/
+the type of the first element (an empty list gives the type `list`, which is never accepted): every
+element must be an instance of that type, and that type a subclass of the collection's type. -/
 def checkSeq (ty : Nat) : List (Obj N) → Except Err (List (Obj N))
   | [] => .error .typeError
-  | o :: t => if (o :: t).all (fun x => x.ty = o.ty) ∧ o.ty = ty then .ok (o :: t) else .error .typeError
+  | o :: t => if (o :: t).all (fun x => TyRel.sub x.ty o.ty) ∧ TyRel.sub o.ty ty then .ok (o :: t)
+      else .error .typeError
 
 /-- `list.pop(i)` index normalisation; `none` = IndexError -/
 def normIdx (len : Nat) (i : Int) : Option Nat :=
@@ -120,7 +128,7 @@ def plan (view : List (Nat × List (Obj N))) (lookup : Nat → N → Option Nat)
       | none => .error .badTarget
       | some (ty, _) => (checkObj ty o).map (Act.extend j)
   | .addColl j k => match view[j]?, view[k]? with
-      | some (ty, _), some (ty', xs) => if ty' = ty then .ok (.extend j xs) else .error .typeError
+      | some (ty, _), some (ty', xs) => if TyRel.sub ty' ty then .ok (.extend j xs) else .error .typeError
       | _, _ => .error .badTarget
   | .addSeq j os => match view[j]? with
       | none => .error .badTarget
@@ -136,11 +144,14 @@ def plan (view : List (Nat × List (Obj N))) (lookup : Nat → N → Option Nat)
       | some (_, objs) => match lookup j n with
           | none => .error .keyError
           | some p => if p < objs.length then .ok (.erase j p) else .error .indexError
+  | .popBad j => match view[j]? with
+      | none => .error .badTarget
+      | some _ => .error .typeError
   | .plusObj j o => match view[j]? with
       | none => .error .badTarget
       | some (ty, _) => (checkObj ty o).map (Act.copyExtend j)
   | .plusColl j k => match view[j]?, view[k]? with
-      | some (ty, _), some (ty', xs) => if ty' = ty then .ok (.copyExtend j xs) else .error .typeError
+      | some (ty, _), some (ty', xs) => if TyRel.sub ty' ty then .ok (.copyExtend j xs) else .error .typeError
       | _, _ => .error .badTarget
   | .plusSeq j os => match view[j]? with
       | none => .error .badTarget
@@ -225,6 +236,42 @@ def run (w : World N) (ops : List (Op N)) : World N := runWith copyOf w ops
 def newColl (w : World N) (ty : Nat) : World N :=
   { next := w.next + 2, colls := w.colls ++ [{ oloc := w.next, iloc := w.next + 1, ty := ty, objects := [], idx := [] }] }
 
+/-! ### constructor `NamedObjectCollection(objs=None, obj_type=None)` -/
+
+/-- the `objs` argument -/
+inductive CtorArg (N : Type) | none | single (o : Obj N) | seq (os : List (Obj N))
+
+/-- `obj_type` after the inference of `ObjectCollection.__init__`; `none` stands for `object` /
+`list` (no objects to take the type from), which have no attribute `name`. -/
+def ctorType (ty : Option Nat) (arg : CtorArg N) : Option Nat :=
+  match ty, arg with
+  | some t, _ => some t
+  | .none, .single o => some o.ty
+  | .none, .seq (o :: _) => some o.ty
+  | .none, _ => .none
+
+def ctorObjs : CtorArg N → List (Obj N)
+  | .none => []
+  | .single o => [o]
+  | .seq os => os
+
+/-- `for obj in objs: self.add(obj)` on the collection under construction (number `j`) -/
+def addEach (w : World N) (j : Nat) : List (Obj N) → Except Err (World N)
+  | [] => .ok w
+  | o :: t => match (stepWith copyOf w (.addObj j o)) with
+      | (w', .ok _) => addEach w' j t
+      | (_, .error e) => .error e
+
+/-- the constructor: the type is settled, the objects are added one by one (`TypeError` for a
+foreign one), then the type must have a `name` attribute (`hasName`).  A raising constructor
+leaves no collection behind. -/
+def mkNamed (hasName : Nat → Bool) (w : World N) (ty : Option Nat) (arg : CtorArg N) : Except Err (World N) :=
+  match ctorType ty arg with
+  | .none => .error .typeError
+  | some t => match addEach (newColl w t) w.colls.length (ctorObjs arg) with
+      | .error e => .error e
+      | .ok w' => if hasName t then .ok w' else .error .typeError
+
 /-! ### accessors -/
 
 def nameList (c : C N) : List N := odKeys c.idx
@@ -239,6 +286,23 @@ def getItemName (c : C N) (n : N) : Except Err (Obj N) :=
   | .error e => .error e
   | .ok i => match c.objects[i]? with | none => .error .indexError | some o => .ok o
 def containsName (c : C N) (n : N) : Bool := (odGet c.idx n).isSome
+
+/-- `len(c)` -/
+def len (c : C N) : Nat := c.objects.length
+
+/-- `c.index(obj)`: first position of the object (`ValueError` when it is not stored) -/
+def indexOf (c : C N) (o : Obj N) : Except Err Nat :=
+  match c.objects.findIdx? (fun x => x.id == o.id) with
+  | none => .error .valueError
+  | some i => .ok i
+
+/-- the key of `c[key]`: `isinstance(key, str)` decides between lookup by name and by position -/
+inductive Key (N : Type) | name (n : N) | idx (i : Int)
+
+/-- `NamedObjectCollection.__getitem__` -/
+def getItem (c : C N) : Key N → Except Err (Obj N)
+  | .name n => getItemName c n
+  | .idx i => getItemIdx c i
 
 /-! ### specification: every collection is a plain list of its own -/
 
